@@ -203,6 +203,9 @@ type mirArgs struct {
 func mirByte(i int64) byte { return byte((i*13 + i/253) % 256) }
 
 func mirApply(op string, raw json.RawMessage) interface{} {
+	if op == "ackcrash" {
+		return mirAckCrash(raw)
+	}
 	var a mirArgs
 	if err := json.Unmarshal(raw, &a); err != nil {
 		panic(err)
@@ -498,6 +501,10 @@ func mirGen(v *verifRun) {
 
 // C04: the finished, fully mirrored remote unit across a restart of the submitting node with the link down
 func mirGenRestart(v *verifRun) {
+	// the node dies while a remote unit's stdin is being sent, after the executing node acknowledged the unit
+	for _, fa := range []int{1, 3} {
+		v.do(mirApply, "ackcrash", ackArgs{StdinLen: 40000 * fa, FailAt: fa})
+	}
 	for i := 0; i < v.n; i++ {
 		a := mirArgs{RestartA: true}
 		for k := 1 + v.rng.Intn(3); k > 0; k-- {
